@@ -307,6 +307,7 @@ NCS = [NC("m"), NC("n")]
 INC = lambda v: v + 1          # noqa: E731
 ISEVEN = lambda v: v % 2 == 0  # noqa: E731
 ADD2 = lambda a, b: a + b      # noqa: E731
+COUNT = lambda acc, x: (acc or 0) + 1   # noqa: E731   (an accumulator that may legitimately start as None)
 
 # name -> (build(args) -> step, python(input, *args), [argument domains], input domain, post-processing of lazy results)
 # an argument domain is a list of JSON values (option-capable) or ("fn", callable) for function arguments
@@ -364,7 +365,8 @@ ROWS = {
     "map": (lambda f: F.map(f) + list, lambda x, f: list(map(f, x)), [("fn", INC)], [[1, 2], [], [1, "a"], 5]),
     "filter": (lambda f: F.filter(f) + list, lambda x, f: list(filter(f, x)), [("fn", ISEVEN)], [[1, 2, 4], [], [1, "a"], 5]),
     "reduce": (lambda f: F.reduce(f), lambda x, f: functools.reduce(f, x), [("fn", ADD2)], [[1, 2, 3], [], ["a", "b"], 5]),
-    "reduce_initial": (lambda f, i: F.reduce(f, i), lambda x, f, i: functools.reduce(f, x, i), [("fn", ADD2), [0, 10]], [[1, 2, 3], [], 5]),
+    "reduce_initial": (lambda f, i: F.reduce(f, i), lambda x, f, i: functools.reduce(f, x, i), [("fn", ADD2), [0, 10, None, "s"]], [[1, 2, 3], [], 5, ["a"]]),
+    "reduce_initial_count": (lambda f, i: F.reduce(f, i), lambda x, f, i: functools.reduce(f, x, i), [("fn", COUNT), [None, 0, 5, False]], [[10, 20, 30], [], [None]]),
     "flatmap": (lambda f: F.flatmap(f) + list, lambda x, f: list(itertools.chain.from_iterable(map(f, x))), [("fn", lambda v: [v, v])], [[1, 2], [], 5]),
     "flatten": (lambda: F.flatten + list, lambda x: list(itertools.chain.from_iterable(x)), [], [[[1], [2, 3]], [], [1], 5]),
     "into": (lambda f: F.into(f), lambda x, f: f(**x) if isinstance(x, dict) else f(*x), [("fn", ADD2)], [[1, 2], {"a": 1, "b": 2}, [1], 5]),
@@ -386,7 +388,7 @@ ROWS = {
     "partial": (lambda v: F.partial(ADD2, b=v), lambda x, v: ADD2(x, b=v), [NUMS + ["a"]], NUMS + ["b"]),
 }
 ALIASES = {"add_nc": "add", "subtract_nc": "subtract", "multiply_nc": "multiply", "left_multiply_nc": "left_multiply", "divide_by_nc": "divide_by",
-           "divide_into_nc": "divide_into", "modulo_nc": "modulo", "get_default": "get", "get_from_default": "get_from", "reduce_initial": "reduce", "invert_default": "invert", "call_method_args": "call_method"}
+           "divide_into_nc": "divide_into", "modulo_nc": "modulo", "get_default": "get", "get_from_default": "get_from", "reduce_initial": "reduce", "reduce_initial_count": "reduce", "invert_default": "invert", "call_method_args": "call_method"}
 
 
 def _get(c, k, d):
